@@ -465,7 +465,26 @@ fn gen_s2c(w: &mut World, pre: bool) -> Packet {
 }
 
 fn mutate(w: &mut World, mut b: Vec<u8>) -> Vec<u8> {
-    match w.tape.choose(10) {
+    match w.tape.choose(11) {
+        10 => {
+            // zero packet identifier [MQTT-2.2.1-3]: C08 leaves acceptance open, but whatever the
+            // client answers must not carry the zero identifier itself (C01)
+            let t = b[0] >> 4;
+            if b.len() >= 4 && b[1] < 0x80 {
+                let at = match t {
+                    3 if b[0] & 0x06 != 0 => Some(4 + (((b[2] as usize) << 8) | b[3] as usize)),
+                    4 | 5 | 6 | 7 | 9 | 11 => Some(2),
+                    _ => None,
+                };
+                if let Some(at) = at {
+                    if at + 1 < b.len() {
+                        b[at] = 0;
+                        b[at + 1] = 0;
+                        w.probe("inbound_zero_packet_id");
+                    }
+                }
+            }
+        }
         0 => {
             let i = w.tape.choose(b.len() as u32) as usize;
             b[i] ^= 1 << w.tape.choose(8);
